@@ -20,6 +20,7 @@ str, StringIO, bytes and a list of lines.
 import io
 import itertools
 import re
+import warnings
 
 from .. import core
 
@@ -33,7 +34,14 @@ RULE = ("Engine B walk of the value trie per (position, key) configuration: a st
         "reader lines>:<blank continuation?>:<value read back identical / normalised>.  Structured continuation lines: "
         "one state / transition / trace per (configuration, value) with value = first line + 1..3 indented lines taken "
         "from a list of lines that are meaningful to the reader at column 0; dump and eight re-reads (2 settings x str, "
-        "StringIO, bytes, list of lines); all of them non-trivial when accepted.")
+        "StringIO, bytes, list of lines); all of them non-trivial when accepted.  Other routes: for every value of a "
+        "sub-space (bounds: other_routes) the assignment is made another way (update / setdefault / merge_fields / the "
+        "restricted wrapper / the constructor from a mapping / after refused or multi-line assignments / on an object of "
+        "a sub-class) and judged by the same oracle - one state / transition / trace per (route, configuration, value); "
+        "when the route accepts and the dump is the one the default route gives for the same configuration and value, "
+        "the re-reads are those of the main pass and are not repeated.  Other readers: the default assignment followed by "
+        "the other ways of dumping (re-read whenever their text differs from dump()) and the other entry points that "
+        "read with the two settings.")
 BUDGET = {"quick": 240, "thorough": 3000}
 
 POSITIONS = ("only", "first", "middle", "last")
@@ -77,7 +85,16 @@ def bounds(tier):
                               "first + three such lines for all %d ordered triples (L1, L2, L3), same indent, no trailing (indent "
                               "of two blanks: the 125 triples of armor lines); " % len(STRUCT_LINES) ** 3,
                               sum(len(struct_values(g, 0, tier)) for g in range(len(struct_groups())))),
-                "sources": ["str", "StringIO", "bytes", "list of lines with newlines"]}}
+                "sources": ["str", "StringIO", "bytes", "list of lines with newlines"]},
+            "other_routes": {
+                "values": "all strings of length 0..%d over the alphabet + the structured continuation lines of the first "
+                          "group: %d per configuration" % (ROUTE_MAXLEN if tier == "quick" else ROUTE_MAXLEN + 1,
+                                                           len(route_values(tier, 0))),
+                "assignment_routes": ["%s on %s" % rc for rc in all_routes()],
+                "layout": "the surrounding fields of the four positions; setdefault / merge_fields assign to an absent field, the "
+                          "field that follows is added afterwards",
+                "dump_routes": list(DUMP_ROUTES), "readers": ["%s (%s)" % (rn, st) for rn, st, _f in route_readers()],
+                "reader_sources": list(READER_SOURCES)}}
 
 
 def assumptions():
@@ -88,7 +105,14 @@ def assumptions():
             "the seed rotates the letter and the one-letter key; shapes are the same",
             "structured continuation lines use printable ASCII outside the 7 classes ('-', upper-case words, digits, '.'); "
             "they are 'printable text' in the sense of the quantifier; trailing blank / tab after such a line is part of the "
-            "value; the continuation lines are never blank, so both parser settings apply"]
+            "value; the continuation lines are never blank, so both parser settings apply",
+            "other routes: update / setdefault / merge_fields / RestrictedWrapper.__setitem__ / Deb822(mapping) are ways of "
+            "assigning a value to a field and are held to the same oracle (over-rejection is still no violation); the "
+            "constructor has no paragraph to leave unchanged, and on the unchanged library it reports a refused value with "
+            "a TypeError raised while it formats its own ValueError message (Deb822({'K': 'a\\n'}) -> TypeError: "
+            "'dict_items' object is not subscriptable): counted as a refusal, the exception class is not demanded there",
+            "other readers: Packages / Sources.iter_paragraphs default to the setting under which whitespace-only lines do "
+            "not end a paragraph; strict={} and strict={...: True} are the default setting spelled out"]
 
 
 # ------------------------------------------------------------------------------------------------ structured lines
@@ -166,73 +190,268 @@ def _msg_class(e):
     return re.sub(r"[^a-z]+", "-", str(e).lower()).strip("-")[:40]
 
 
-def execute(position, key, v, part=None, sources=("str", "stringio")):
-    """-> list of (sig, expected, observed)"""
+# ------------------------------------------------------------------------------------------------ other routes
+# The same assignment reached another way, and the same dump / re-read reached another way.
+#   assignment routes: how the value gets into the field (the surrounding fields are those of `position`);
+#   classes: the paragraph is an object of a sub-class (which may override validate_input);
+#   dump routes: str(p), bytes(p), dump(fd) - re-read as well whenever their text is not that of dump();
+#   readers: the entry points / classes whose setting is the one the statement names.
+ASSIGN_ROUTES = ["update-dict", "update-pairs", "update-kw", "setdefault", "merge_fields", "wrapper", "ctor-dict",
+                 "after-rejected", "after-multiline", "twice"]
+ABSENT_KEY_ROUTES = ("setdefault", "merge_fields")        # they assign only when the field is not there yet
+ROUTE_CLASSES = ["Dsc", "Changes", "BuildInfo", "Release", "PdiffIndex", "Packages", "Sources", "Removals"]
+ROUTE_MAXLEN = 3
+READER_SOURCES = ("str", "lines", "bytes")
+DUMP_ROUTES = ("str", "bytes", "dump-fd-binary", "dump-fd-text")
+
+
+def all_routes():
+    """(assignment route, class) pairs other than the default ('setitem', 'Deb822')"""
+    return [(r, "Deb822") for r in ASSIGN_ROUTES] + [("setitem", c) for c in ROUTE_CLASSES] + \
+           [("update-dict", "Dsc"), ("ctor-dict", "Dsc"), ("ctor-dict", "Packages")]
+
+
+def build_route(position, key, route, clsname):
+    """the paragraph before the assignment; None for the constructor route"""
+    import debian.deb822
+    cls = getattr(debian.deb822, clsname)
+    if route == "ctor-dict":
+        return None
+    p = cls()
+    if position in ("middle", "last"):
+        p["X"] = "1"
+    if position != "only" and route not in ABSENT_KEY_ROUTES:
+        p[key] = "0"
+    if position in ("first", "middle") and route not in ABSENT_KEY_ROUTES:
+        p["Y"] = "2"
+    if route == "after-multiline":
+        p[key] = "m\n n\n\to"
+    return p
+
+
+def assign_route(p, position, key, v, route, clsname):
+    """performs the assignment -> the paragraph that now holds the value"""
+    import debian.deb822
+    if route == "setitem":
+        p[key] = v
+    elif route == "update-dict":
+        p.update({key: v})
+    elif route == "update-pairs":
+        p.update([(key, v)])
+    elif route == "update-kw":
+        p.update(**{key: v})
+    elif route in ABSENT_KEY_ROUTES:
+        if route == "setdefault":
+            p.setdefault(key, v)
+        else:
+            p.merge_fields(key, {key: v})
+        if position in ("first", "middle"):
+            p["Y"] = "2"          # the field that follows is added afterwards: same layout as the default route
+    elif route == "wrapper":
+        debian.deb822.RestrictedWrapper(p)[key] = v
+    elif route == "after-rejected":
+        for wrong in ("w\n", "w\n\n x", "w\nx"):
+            try:
+                p[key] = wrong
+            except ValueError:
+                pass
+        p[key] = v
+    elif route == "after-multiline":
+        p[key] = v
+    elif route == "twice":
+        p[key] = v
+        p[key] = v
+    elif route == "ctor-dict":
+        pairs = ([("X", "1")] if position in ("middle", "last") else []) + [(key, v)] + \
+                ([("Y", "2")] if position in ("first", "middle") else [])
+        p = getattr(debian.deb822, clsname)(dict(pairs))
+    else:
+        raise AssertionError(route)
+    return p
+
+
+def route_readers():
+    """-> [(name, setting, f(source) -> list of paragraphs)]: other entry points with the setting the statement names"""
+    from debian import deb822 as M
+    D = M.Deb822
+    return [("Packages-iter-default", "ws-continues", lambda src: list(M.Packages.iter_paragraphs(src))),
+            ("Sources-iter-default", "ws-continues", lambda src: list(M.Sources.iter_paragraphs(src, use_apt_pkg=False))),
+            ("iter-positional", "ws-continues", lambda src: list(D.iter_paragraphs(src, None, False, False, "utf-8", dict(NOWS)))),
+            ("Dsc-iter", "ws-continues", lambda src: list(M.Dsc.iter_paragraphs(src, strict=dict(NOWS)))),
+            ("ctor", "ws-continues", lambda src: [D(src, strict=dict(NOWS))]),
+            ("ctor-then-rest", "ws-continues", lambda src: _ctor_then_rest(D, src, dict(NOWS))),
+            ("iter-explicit-default", "default", lambda src: list(D.iter_paragraphs(src, strict={"whitespace-separates-paragraphs": True}))),
+            ("iter-empty-strict", "default", lambda src: list(D.iter_paragraphs(src, strict={}))),
+            ("Release-iter", "default", lambda src: list(M.Release.iter_paragraphs(src))),
+            ("ctor-then-rest", "default", lambda src: _ctor_then_rest(D, src, None))]
+
+
+def _ctor_then_rest(D, src, strict):
+    """the first paragraph by the constructor, then whatever another constructor call finds behind it"""
+    it = iter(src.splitlines(True)) if isinstance(src, (str, bytes)) else iter(src)
+    out = [D(it, strict=strict)]
+    nxt = D(it, strict=strict)
+    if nxt:
+        out.append(nxt)
+    return out
+
+
+def dump_route(p, name):
+    if name == "str":
+        return str(p)
+    if name == "bytes":
+        return bytes(p).decode("utf-8")
+    fd = io.BytesIO() if name == "dump-fd-binary" else io.StringIO()
+    if name == "dump-fd-binary":
+        p.dump(fd)
+        return fd.getvalue().decode("utf-8")
+    p.dump(fd, text_mode=True)
+    return fd.getvalue()
+
+
+def classify(ps, got, want):
+    if not ps:
+        return "no-paragraph"
+    if len(ps) > 1:
+        return "split"
+    if set(got[0]) - set(want):
+        return "injected"
+    if set(want) - set(got[0]):
+        return "truncated"
+    return "reordered"
+
+
+def execute(position, key, v, part=None, sources=("str", "stringio"), route="setitem", clsname="Deb822", readers=False):
+    """-> list of (sig, expected, observed).  readers: the default assignment followed by the other ways of dumping and
+    the other readers"""
     from debian.deb822 import Deb822
     bad = []
-    p = build(position, key)
-    before = (list(p.items()), p.dump())
+    default_route = route == "setitem" and clsname == "Deb822"
+    tag = "readers/" if readers else "" if default_route else "route/%s%s/" % (route, "" if clsname == "Deb822" else "-" + clsname)
+    p = build(position, key) if default_route else build_route(position, key, route, clsname)
+    before = (list(p.items()), p.dump()) if p is not None else None
     mr = must_reject(v)
     ev = 1
     try:
-        p[key] = v
-    except ValueError as e:
+        if default_route:
+            p[key] = v
+        else:
+            p = assign_route(p, position, key, v, route, clsname)
+    except (ValueError, TypeError) as e:
+        if isinstance(e, TypeError) and route != "ctor-dict":
+            bad.append((tag + "setitem/raises/TypeError", "accepted or ValueError", "TypeError: %s" % e))
+            if part is not None:
+                part.evaluations += ev
+                part.outcomes["raises:TypeError"] += 1
+            return bad
+        if before is None:
+            # the constructor has no paragraph to leave unchanged (on the unchanged library it reports a refused value
+            # with a TypeError raised while formatting its message: a refusal all the same)
+            if part is not None:
+                part.evaluations += ev
+                part.outcomes["route:refused-by-constructor:" + type(e).__name__] += 1
+            return bad
         ev += 1
         after = (list(p.items()), p.dump())
         if after != before:
-            bad.append(("reject/paragraph-changed", before, after))
+            bad.append((tag + "reject/paragraph-changed", before, after))
         if part is not None:
             part.evaluations += ev
-            part.outcomes["rejected:" + _msg_class(e)] += 1
+            part.outcomes[("readers:" if readers else "route:" if tag else "") + "rejected:" + _msg_class(e)] += 1
         return bad
     except Exception as e:
-        bad.append(("setitem/raises/%s" % type(e).__name__, "accepted or ValueError", "%s: %s" % (type(e).__name__, e)))
+        bad.append((tag + "setitem/raises/%s" % type(e).__name__, "accepted or ValueError", "%s: %s" % (type(e).__name__, e)))
         if part is not None:
             part.evaluations += ev
             part.outcomes["raises:" + type(e).__name__] += 1
         return bad
     if mr:
-        bad.append(("must-reject/accepted/" + mr, "ValueError", "accepted %r" % v))
+        bad.append((tag + "must-reject/accepted/" + mr, "ValueError", "accepted %r" % v))
     want = list(p.keys())
     text = p.dump()
+    texts = [("", text)]
+    if not default_route:
+        # the default route on the same paragraph layout: when it accepts the value too and dumps the same text, every
+        # re-read of that text is a case of the main pass (same position, key, value) and is not repeated here
+        ref = build(position, key)
+        try:
+            ref[key] = v
+            ref_text = ref.dump()
+        except Exception:       # refused (or failing: the main pass reports that) on the default route
+            ref_text = None
+        ev += 1
+        if ref_text == text and not mr:
+            if part is not None:
+                part.evaluations += ev
+                part.outcomes["route:accepted:same-dump-as-default-route"] += 1
+                if "\n" in v or "\r" in v:
+                    part.nontrivial += 1
+                part.extra["accepted (other routes)"] += 1
+            return bad
+    if readers:
+        # the other ways of dumping: re-read too whenever their text is not that of dump()
+        for dn in DUMP_ROUTES:
+            ev += 1
+            try:
+                t2 = dump_route(p, dn)
+            except Exception as e:
+                bad.append((tag + "dump/%s/raises/%s" % (dn, type(e).__name__), text, "%s: %s" % (type(e).__name__, e)))
+                continue
+            if t2 != text:
+                texts.append((dn + "/", t2))
     rl = reader_lines(v)
     blankcont = any(not l.strip(" \t\r\n") for l in rl[1:])
     readback = None
-    for setting, strict in (("ws-continues", NOWS), ("default", None)):
-        if strict is None and blankcont:
-            continue
-        for srcname in sources:
-            src = (text if srcname == "str" else io.StringIO(text) if srcname == "stringio" else
-                   text.encode("utf-8") if srcname == "bytes" else text.splitlines(True))
-            ev += 1
-            try:
-                ps = list(Deb822.iter_paragraphs(src, strict=dict(strict) if strict else None))
-            except Exception as e:
-                bad.append(("reread/%s/%s/raises/%s" % (setting, srcname, type(e).__name__),
-                            "one paragraph with keys %r" % want, "%s: %s (dump %r)" % (type(e).__name__, e, text)))
+    def source(srcname, text):
+        return (text if srcname == "str" else io.StringIO(text) if srcname == "stringio" else
+                text.encode("utf-8") if srcname == "bytes" else text.splitlines(True))
+    for dtag, text in texts:
+        for setting, strict in (("ws-continues", NOWS), ("default", None)):
+            if strict is None and blankcont:
                 continue
-            got = [list(q.keys()) for q in ps]
-            if got != [want]:
-                if not ps:
-                    what = "no-paragraph"
-                elif len(ps) > 1:
-                    what = "split"
-                elif set(got[0]) - set(want):
-                    what = "injected"
-                elif set(want) - set(got[0]):
-                    what = "truncated"
-                else:
-                    what = "reordered"
-                bad.append(("reread/%s/%s/%s" % (setting, srcname, what), "one paragraph with keys %r" % want,
-                            "%r from dump %r" % ([list(q.items()) for q in ps], text)))
-            elif readback is None:
-                readback = "same" if ps[0][key] == v else "normalised"
+            for srcname in sources:
+                ev += 1
+                try:
+                    ps = list(Deb822.iter_paragraphs(source(srcname, text), strict=dict(strict) if strict else None))
+                except Exception as e:
+                    bad.append((tag + dtag + "reread/%s/%s/raises/%s" % (setting, srcname, type(e).__name__),
+                                "one paragraph with keys %r" % want, "%s: %s (dump %r)" % (type(e).__name__, e, text)))
+                    continue
+                got = [list(q.keys()) for q in ps]
+                if got != [want]:
+                    bad.append((tag + dtag + "reread/%s/%s/%s" % (setting, srcname, classify(ps, got, want)),
+                                "one paragraph with keys %r" % want,
+                                "%r from dump %r" % ([list(q.items()) for q in ps], text)))
+                elif readback is None:
+                    readback = "same" if ps[0][key] == v else "normalised"
+    if readers:
+        text = texts[0][1]
+        for rn, setting, f in route_readers():
+            if setting == "default" and blankcont:
+                continue
+            for srcname in sources:
+                ev += 1
+                try:
+                    with warnings.catch_warnings():
+                        warnings.simplefilter("ignore")
+                        ps = f(source(srcname, text))
+                    got = [list(q.keys()) for q in ps]
+                except Exception as e:
+                    bad.append((tag + "reader/%s/%s/%s/raises/%s" % (rn, setting, srcname, type(e).__name__),
+                                "one paragraph with keys %r" % want, "%s: %s (dump %r)" % (type(e).__name__, e, text)))
+                    continue
+                if got != [want]:
+                    bad.append((tag + "reader/%s/%s/%s/%s" % (rn, setting, srcname, classify(ps, got, want)),
+                                "one paragraph with keys %r" % want,
+                                "%r from dump %r" % ([list(q.items()) for q in ps], text)))
     if part is not None:
         part.evaluations += ev
-        part.outcomes["accepted:lines=%d:blankcont=%s:readback=%s" % (len(rl), "y" if blankcont else "n", readback)] += 1
+        part.outcomes[("readers:" if readers else "route:" if tag else "") + "accepted:lines=%d:blankcont=%s:readback=%s" % (
+            len(rl), "y" if blankcont else "n", readback)] += 1
         if "\n" in v or "\r" in v:
             part.nontrivial += 1
-        part.extra["accepted" if len(sources) == 2 else "accepted (structured continuation lines)"] += 1
+        part.extra["accepted (other readers)" if readers else "accepted (other routes)" if tag else "accepted" if len(sources) == 2 else
+                   "accepted (structured continuation lines)"] += 1
     return bad
 
 
@@ -256,13 +475,33 @@ def units(tier, seed):
         for pi in range(len(POSITIONS)):
             for ki in range(2):
                 out.append(("S", gi, pi, ki))
+    for ri in range(len(all_routes())):
+        for pi in range(len(POSITIONS)):
+            for ki in range(2):
+                out.append(("R", ri, pi, ki))
+    for pi in range(len(POSITIONS)):
+        for ki in range(2):
+            out.append(("D", 0, pi, ki))
     return out
+
+
+def route_values(tier, seed):
+    """values of the other-routes pass, simplest first: every string up to ROUTE_MAXLEN (thorough: one more) over the
+    alphabet, then the structured continuation lines of the first group"""
+    al = alphabet(seed)
+    n = ROUTE_MAXLEN if tier == "quick" else ROUTE_MAXLEN + 1
+    out = ["".join(t) for L in range(0, n + 1) for t in itertools.product(al, repeat=L)]
+    return out + struct_values(0, seed, "quick")
 
 
 def unit_cost(u, tier):
     L, pre, pi, ki = u
     if L == "S":
         return 2400
+    if L == "R":
+        return 600
+    if L == "D":
+        return 6000
     return 7 ** (L - len(pre))
 
 
@@ -282,6 +521,29 @@ def run_unit(u, tier, seed):
                 part.violation(sig, case, exp, obs, rank=len(v))
         part.sample(case)
         return part
+    if L == "D":
+        part.max_depth = ROUTE_MAXLEN
+        for v in route_values(tier, seed):
+            part.states += 1
+            part.transitions += 1
+            part.traces += 1
+            case = {"position": position, "key": key, "value": v, "sources": list(READER_SOURCES), "readers": True}
+            for sig, exp, obs in execute(position, key, v, part, READER_SOURCES, readers=True):
+                part.violation(sig, case, exp, obs, rank=len(v))
+        part.sample(case)
+        return part
+    if L == "R":
+        route, clsname = all_routes()[pre]
+        part.max_depth = ROUTE_MAXLEN
+        for v in route_values(tier, seed):
+            part.states += 1
+            part.transitions += 1
+            part.traces += 1
+            case = {"position": position, "key": key, "value": v, "sources": list(ALL_SOURCES), "route": route, "class": clsname}
+            for sig, exp, obs in execute(position, key, v, part, ALL_SOURCES, route, clsname):
+                part.violation(sig, case, exp, obs, rank=len(v))
+        part.sample(case)
+        return part
     head = "".join(al[i] for i in pre)
     part.max_depth = L
     v = head
@@ -298,7 +560,8 @@ def run_unit(u, tier, seed):
 
 
 def replay(case):
-    return execute(case["position"], case["key"], case["value"], None, tuple(case.get("sources", ("str", "stringio"))))
+    return execute(case["position"], case["key"], case["value"], None, tuple(case.get("sources", ("str", "stringio"))),
+                   case.get("route", "setitem"), case.get("class", "Deb822"), bool(case.get("readers")))
 
 
 def repro_py(case):
